@@ -26,7 +26,7 @@ MANIFEST = {
             "peer-selection correspondence, not by running two nodes. Trusted: Coq kernel + vm_compute, fidelity of the hand "
             "models as sampled, Go harness, Python glue.",
 }
-IMPORTS = "From LE Require Import Sync.PeerSelect Sync.Handlers Corr.C19."
+IMPORTS = "From LE Require Import Sync.PeerSelect Sync.Handlers Sync.Converge Corr.C19."
 
 BADS_H = {"hcb-nil": "None", "hcb-garbage": "None", "hcb-empty": "(Some [])"}
 BADS_B = {"bfi-nil": "None", "bfi-garbage": "None", "bfi-shortid": "(Some (0, false))"}
@@ -86,6 +86,17 @@ def req_terms(rec):
     return out
 
 
+def sync_term(r):
+    e = {"ok": 0, "err": 1, "invalid": 2}[r["ending"]]
+    common = "None" if r["common"] is None else "(Some %d)" % r["common"]
+    pairs = lambda l: clist(l, lambda x: "(%d, %d)" % tuple(x))
+    obs = "(%s, %s, %s, %s, %s, %s)" % (clist(r["after"]), cbool(r["banned"]), cbool(bool(r["err"])), pairs(r["tempafter"]),
+                                       cbool(r["lowdeleted"]), cbool(r["dbequal"]))
+    return "(%s, %s, %d, %s, %s, %d, %s, %d, %d, %s)" % (
+        cbool(r["kind"] == "fast"), clist(r["before"]), r["finalized"], common, clist(r["delivered"]), e, pairs(r["links"]),
+        r["targeth"], 2 * r["spec"]["n"], obs)
+
+
 def add_failure(ck, kind, code, what_spec, what_model, case):
     spec_bad = code >= 2
     f = dict(kind="input", key="c19:%s:%s" % (kind, "spec" if spec_bad else "model"),
@@ -130,6 +141,29 @@ def evaluate(ck, recs):
         if not r.get("save") and r["temp"] != list(range(1, r["orig"] + 1)):
             ck.fail_case("c19:temp:spec", "temp blocks after delete(save) / apply / delete(no save) are not the original blocks: "
                          "fast sync could not restore them: " + json.dumps(r), r, corr="Chain.RemoveBlock / GetTempBlocks vs Sync.Converge")
+    syncs = []
+    for r in [x for x in recs if x["k"] == "sync"]:
+        if r.get("fail"):
+            ck.fail_obligation("harness-setup", "two-node sync scenario could not be built: %s on %s" % (r["fail"], json.dumps(r["spec"])))
+        elif r.get("hang") or r.get("panic"):
+            ck.count()
+            ck.fail_case("c19:sync:%s" % ("hang" if r.get("hang") else "panic"),
+                         "Syncer.Sync %s on %s" % ("did not return within 30 s" if r.get("hang") else "panicked: " + r["panic"],
+                                                   json.dumps(r["spec"])), r, corr="two-node sync run")
+        else:
+            syncs.append(r)
+    rsy = ck.coq_eval(IMPORTS, "sync_case", "check_sync", [sync_term(r) for r in syncs], shard=40, tag="sync")
+    if rsy is not None:
+        for r, code in zip(syncs, rsy):
+            ck.count()
+            sp = r["spec"]
+            ck.nontrivial(("sync", r["kind"], sp["n"], sp["prefix"], sp["own"], sp["peer"], sp["full"], sp["hcb"], sp["corrupt"],
+                           sp["corruptkind"] if sp["corrupt"] >= 0 else "", sp["errafter"]))
+            if code != 0:
+                add_failure(ck, "sync", code,
+                            "sync run: node did not end on the honest better peer's chain / failed fast sync did not restore the "
+                            "original blocks byte-identically and ban / a finalized block was touched",
+                            "sync run (fast_sync.go / block_sync.go / download.go) differs from Sync.Converge", r)
     per = {"hcb": [], "bfi": [], "last": []}
     for rec in chains:
         if rec.get("setup"):
@@ -184,14 +218,16 @@ def run(ck):
             return
         recs += r0
     if ck.tier == "quick":
-        args = ["-bestlen", "4", "-bestrand", "300", "-runs", "12", "-handlers", "120", "-gap", "500"]
+        args = ["-bestlen", "4", "-bestrand", "300", "-runs", "12", "-handlers", "120", "-gap", "500", "-sync", "60"]
     else:
-        args = ["-bestlen", "5", "-bestrand", "5000", "-runs", "40", "-handlers", "1500", "-gap", "20000"]
+        args = ["-bestlen", "5", "-bestrand", "5000", "-runs", "40", "-handlers", "1500", "-gap", "20000", "-sync", "1500"]
     r1 = ck.run_harness(binp, args)
     if r1 is None:
         return
     recs += r1
     evaluate(ck, recs)
+    for r in [x for x in r1 if x["k"] == "sync"][1:2]:
+        ck.sample(dict(r, links=r["links"][:4]))
     for k in ("best", "chain", "gap"):
         for r in [x for x in r1 if x["k"] == k][5:6]:
             ck.sample(r if k != "chain" else dict(r, reqs=r["reqs"][:3]))
